@@ -1,99 +1,33 @@
 import CorsVerif.Proofs.Serve
+import CorsVerif.Proofs.Pipeline
+import CorsVerif.Proofs.Verdict
 import CorsVerif.Proofs.Accepted
 /-
-  C02 — A Fetch-compliant browser's verdict equals what the configuration means.  (PARTIAL)
+  C02 — A Fetch-compliant browser's verdict equals what the configuration means.
 
-  Proved here, for every decision oracle, configuration, preflight request and pre-set headers:
-    * C02_preflight_verdict: with debug off the middleware answers a preflight with the success
-      status exactly when the four documented conditions hold — origin step (parses, and
-      allow-all without credentials or allowed), private-network step (not asked, or enabled),
-      method step (safelisted, `*`, or listed), header step (no ACRH field, `*`, or a non-empty
-      discrete list that approves the lines);
-    * C02_debug_steps: in debug mode the pipeline succeeds under the same origin / PNA / method
-      conditions and a header condition in which the scan of the lines is replaced by "a discrete
-      list is configured" (the browser then applies its own membership test to the full list);
-    * steps_ok_iff: the pipeline characterisation both are built on.
-  NOT proved yet: the browser side (the transcription of CORS-preflight fetch step 7 and of the
-  CORS check in `Spec/Fetch`, applied to the emitted Allow-Methods / Allow-Headers values), hence
-  the end-to-end statement `C02_full`.  It is covered by the `serve` suite (full strict
-  comparison of responses and decisions) only.
+  * C02 / C02_accepted: for every accepted configuration, either debug mode, every browser request
+    intent (serialised origin, method token, token header names, credentials mode, private-network
+    target) and every tolerated shape of the Access-Control-Request-Headers list, the browser's
+    end-to-end verdict (Spec/Browser.lean: CORS-preflight fetch step 7, PNA, the CORS check — a
+    transcription of the Fetch standard that mentions nothing of the implementation) evaluated on
+    the responses of the model of `Wrap` equals `Browser.permits`, the documented meaning.
+  * C02_invariance: hence the verdict does not depend on debug mode nor on tolerated alterations.
+  * C02_preflight_verdict, C02_debug_steps, steps_ok_iff: the server-side characterisation of the
+    preflight pipeline, for every decision oracle.
+  Proof layers: Proofs/Pipeline.lean (which step writes which header with which value; frame),
+  Proofs/BrowserLists.lean (what "extract header list values" yields on tokens, joined lists and
+  tolerated lines; the unsafe-name list is sorted and unique), Proofs/Sound.lean (what acceptance
+  guarantees about the stored header set and the pre-rendered Allow-Headers value),
+  Proofs/Verdict.lean (the browser's conjuncts evaluated on each outcome of the pipeline), C14.
+  With C01_request the origin clause `dec.allowed` is "some listed pattern denotes the origin".
+
+  What the theorem cannot carry: that the Go handler answers like the model (tie: `serve` suite,
+  strict comparison of status, headers and decisions; `intents` suite: this very verdict computed in
+  Lean on the implementation's responses), and the fidelity of Spec/Browser.lean to the standard
+  (trusted reading).
 -/
 namespace Cors
 open Gen Serve
-
-/-- The four documented conditions of a preflight, debug off. -/
-def originCond (dec : Dec) (icfg : ICfg) (o : Bytes) : Bool :=
-  dec.parses o && ((!icfg.credentialed && icfg.tree.isEmpty) || dec.allowed o)
-
-def pnaCond (icfg : ICfg) (reqHdrs : HdrMap) : Bool :=
-  !(reqHdrs.first Facts.headers_ACRPN == some Facts.headers_ValueTrue) || icfg.pna || icfg.pnaNoCors
-
-def methodCond (icfg : ICfg) (m : Bytes) : Bool :=
-  Methods.isSafelisted m || icfg.allowAnyMethod || icfg.allowedMethods.contains m
-
-def headerCond (dec : Dec) (icfg : ICfg) (reqHdrs : HdrMap) : Bool :=
-  match reqHdrs Facts.headers_ACRH with
-  | none => true
-  | some lines => icfg.asteriskReqHdrs || (icfg.allowedReqHdrs.size != 0 && dec.acrhOK lines)
-
-theorem origin_step_iff (dec : Dec) (icfg : ICfg) (b : Buf) (o : Bytes) :
-    (processOriginForPreflight dec icfg b o).isSome = originCond dec icfg o := by
-  unfold processOriginForPreflight originCond
-  cases dec.parses o <;> cases icfg.credentialed <;> cases icfg.tree.isEmpty <;> cases dec.allowed o <;> simp
-
-theorem pna_step_iff (icfg : ICfg) (b : Buf) (reqHdrs : HdrMap) :
-    (processACRPN icfg b reqHdrs).isSome = pnaCond icfg reqHdrs := by
-  unfold processACRPN pnaCond
-  cases h : reqHdrs.first Facts.headers_ACRPN with
-  | none => simp
-  | some v =>
-    simp only []
-    by_cases hv : v = Facts.headers_ValueTrue
-    · subst hv; cases icfg.pna <;> cases icfg.pnaNoCors <;> simp
-    · have h1 : (v != Facts.headers_ValueTrue) = true := by simpa using hv
-      have h2 : (some v == some Facts.headers_ValueTrue) = false := by simpa using hv
-      simp [h1, h2]
-
-theorem method_step_iff (icfg : ICfg) (b : Buf) (m : Bytes) :
-    (processACRM icfg b m).isSome = methodCond icfg m := by
-  unfold processACRM methodCond
-  cases Methods.isSafelisted m <;> cases icfg.allowAnyMethod <;> cases icfg.credentialed <;>
-    cases icfg.allowedMethods.contains m <;> simp
-
-theorem header_step_iff (dec : Dec) (icfg : ICfg) (b : Buf) (reqHdrs : HdrMap) :
-    (processACRH dec icfg b reqHdrs false).isSome = headerCond dec icfg reqHdrs := by
-  unfold processACRH headerCond
-  cases reqHdrs Facts.headers_ACRH with
-  | none => rfl
-  | some lines =>
-    simp only []
-    cases icfg.asteriskReqHdrs <;> cases icfg.credentialed <;> cases icfg.allowAuthorization <;>
-      cases h1 : (icfg.allowedReqHdrs.size == 0) <;> cases dec.acrhOK lines <;> simp_all
-
-/-- The pipeline succeeds (debug off) exactly under the four conditions. -/
-theorem steps_ok_iff (dec : Dec) (icfg : ICfg) (reqHdrs : HdrMap) (o m : Bytes) :
-    (∃ b, preflightSteps dec icfg reqHdrs o m false = .ok b) ↔
-      (originCond dec icfg o && pnaCond icfg reqHdrs && methodCond icfg m && headerCond dec icfg reqHdrs) = true := by
-  unfold preflightSteps
-  rw [← origin_step_iff dec icfg HdrMap.empty o]
-  cases h1 : processOriginForPreflight dec icfg HdrMap.empty o with
-  | none => simp
-  | some b1 =>
-    simp only [Option.isSome_some, Bool.true_and]
-    rw [← pna_step_iff icfg b1 reqHdrs]
-    cases h2 : processACRPN icfg b1 reqHdrs with
-    | none => simp
-    | some b2 =>
-      simp only [Option.isSome_some, Bool.true_and]
-      rw [← method_step_iff icfg b2 m]
-      cases h3 : processACRM icfg b2 m with
-      | none => simp
-      | some b3 =>
-        simp only [Option.isSome_some, Bool.true_and]
-        rw [← header_step_iff dec icfg b3 reqHdrs]
-        cases h4 : processACRH dec icfg b3 reqHdrs false with
-        | none => simp
-        | some b4 => simp
 
 /-- **C02 (server-side verdict, debug off).** -/
 theorem C02_preflight_verdict (dec : Dec) (icfg : ICfg) (hwf : icfg.WF) (r : Req) (pre : HdrMap) (o m : Bytes)
@@ -159,8 +93,98 @@ theorem C02_debug_steps (dec : Dec) (icfg : ICfg) (reqHdrs : HdrMap) (o m : Byte
           cases icfg.asteriskReqHdrs <;> cases icfg.credentialed <;> cases icfg.allowAuthorization <;>
             cases icfg.acah.isEmpty <;> simp
 
+/-! ### End to end: the browser's verdict -/
+
+open Browser in
+/-- **C02.** For every internal configuration with the properties acceptance guarantees
+(`ICfg.WF`, `ICfg.ReqHdrsSound`; see `C02_accepted`), either debug mode, and every request intent
+of a Fetch-compliant browser — a serialised origin, a method token, CORS-unsafe header names that
+are tokens, any credentials mode, private-network target or not — with the
+Access-Control-Request-Headers list reaching the server in any tolerated shape (`Tolerated`: split
+over field lines, at most one OWS byte around elements, at most 16 empty elements):
+
+the browser's end-to-end verdict — CORS-preflight fetch when one is required, then the CORS check
+on the response to the actual request, both transcribed from the Fetch standard in
+`Spec/Browser.lean` and evaluated on the responses of the model of `Wrap` — equals
+`Browser.permits`, the documented meaning of the configuration. -/
+theorem C02 (icfg : ICfg) (hwf : icfg.WF) (hrs : icfg.ReqHdrsSound) (dbg : Bool) (i : Intent) (lines : List Bytes)
+    (hO : (Lex.parse i.origin).isSome = true)
+    (hM : Headers.isValid (methodN i) = true)
+    (hN : ∀ n ∈ i.headerNames, Headers.isValid n = true)
+    (hL : unsafeNames i ≠ [] → Tolerated (unsafeNames i) lines) :
+    verdict (fun r => Serve.serve icfg dbg r HdrMap.empty) i lines = permits (Serve.modelDec icfg) icfg i := by
+  have hne : i.origin ≠ Spec.star := by
+    intro h
+    rw [h] at hO
+    revert hO
+    decide
+  unfold verdict
+  simp only []
+  rw [preflight_check icfg hwf hrs dbg i lines hO hne hM hN hL]
+  have hact : corsCheck i (Serve.serve icfg dbg (actualRequest i) HdrMap.empty).hdrs =
+      (originPermit (Serve.modelDec icfg) icfg i && !icfg.pnaNoCors) :=
+    actual_check (Serve.modelDec icfg) icfg dbg i hne
+  rw [hact]
+  unfold permits needsPreflight originPermit methodPermit hdrPermit
+  cases hs : safelisted (methodN i) <;> cases hu : unsafeNames i <;> cases hp : i.pna <;>
+    cases icfg.tree.isEmpty <;> cases icfg.credentialed <;> cases (Serve.modelDec icfg).allowed i.origin <;>
+    cases i.creds <;> cases icfg.pnaNoCors <;> cases icfg.pna <;> cases icfg.allowAnyMethod <;>
+    cases icfg.allowedMethods.contains (methodN i) <;>
+    simp
+
+open Browser in
+/-- **C02 for accepted configurations.** -/
+theorem C02_accepted (ext : Ext) (cfg : Config) (icfg : ICfg) (acc : newInternalConfig ext cfg = .ok icfg)
+    (dbg : Bool) (i : Intent) (lines : List Bytes)
+    (hO : (Lex.parse i.origin).isSome = true) (hM : Headers.isValid (methodN i) = true)
+    (hN : ∀ n ∈ i.headerNames, Headers.isValid n = true)
+    (hL : unsafeNames i ≠ [] → Tolerated (unsafeNames i) lines) :
+    verdict (fun r => Serve.serve icfg dbg r HdrMap.empty) i lines = permits (Serve.modelDec icfg) icfg i :=
+  C02 icfg (accepted_wf ext cfg icfg acc) (accepted_reqHdrs ext cfg icfg acc) dbg i lines hO hM hN hL
+
+open Browser in
+/-- **C02 (debug mode and tolerated alterations are irrelevant).** The verdict is the same with
+debug mode on or off, and the same for every tolerated shape of the header list as for the single
+line the browser emitted. -/
+theorem C02_invariance (icfg : ICfg) (hwf : icfg.WF) (hrs : icfg.ReqHdrsSound) (d1 d2 : Bool) (i : Intent)
+    (lines : List Bytes)
+    (hO : (Lex.parse i.origin).isSome = true) (hM : Headers.isValid (methodN i) = true)
+    (hN : ∀ n ∈ i.headerNames, Headers.isValid n = true)
+    (hL : unsafeNames i ≠ [] → Tolerated (unsafeNames i) lines) :
+    verdict (fun r => Serve.serve icfg d1 r HdrMap.empty) i lines =
+      verdict (fun r => Serve.serve icfg d2 r HdrMap.empty) i [Bytes.join Headers.comma (unsafeNames i)] := by
+  rw [C02 icfg hwf hrs d1 i lines hO hM hN hL,
+    C02 icfg hwf hrs d2 i _ hO hM hN (fun hne => tolerated_plain _ hne (unsafe_valid i hN))]
+
+/-! ### Non-vacuity -/
+
+/-- A page on https://a.example asks for PUT with X-Foo and Authorization, with credentials. -/
+def exIntent : Browser.Intent where
+  origin := Spec.b "https://a.example"
+  method := Spec.b "put"
+  headerNames := [Spec.b "X-Foo", Spec.b "Authorization", Spec.b "x-foo"]
+  creds := true
+  pna := false
+
+example : (Lex.parse exIntent.origin).isSome = true := by decide
+example : Browser.methodN exIntent = Spec.b "PUT" ∧ Headers.isValid (Browser.methodN exIntent) = true := by decide
+example : ∀ n ∈ exIntent.headerNames, Headers.isValid n = true := by decide
+example : Browser.unsafeNames exIntent = [Spec.b "authorization", Spec.b "x-foo"] := by decide
+/-- The list as an intermediary may deliver it: two field lines, padding, empty elements. -/
+example : Browser.Tolerated (Browser.unsafeNames exIntent) [Spec.b "authorization ,,", Spec.b "\tx-foo"] :=
+  ⟨[Spec.b "authorization", [], [], Spec.b "x-foo"], by decide, by decide, by decide⟩
+/-- Three bytes of padding are not tolerated (and the scanner refuses them, C14). -/
+example : ¬ Browser.Tolerated (Browser.unsafeNames exIntent) [Spec.b "authorization,  x-foo "] := by
+  rintro ⟨ns, h, _⟩
+  have : Spec.names (Spec.elements [Spec.b "authorization,  x-foo "]) = none := by decide
+  rw [this] at h
+  cases h
+
 #print axioms C02_preflight_verdict
 #print axioms C02_debug_steps
 #print axioms steps_ok_iff
+#print axioms C02
+#print axioms C02_accepted
+#print axioms C02_invariance
 
 end Cors
